@@ -104,6 +104,11 @@ def observe_session(p, ids):
             out["contains"][jid] = j in p
         except Exception as e:  # noqa
             out["byid"][jid] = "ERR:" + type(e).__name__
+    # membership of every universe state point (also of removed / never created jobs)
+    out["member"] = {}
+    for sp in UNIVERSE:
+        j = p.open_job(copy.deepcopy(sp))
+        out["member"][j.id] = j in p
     return out
 
 
@@ -125,6 +130,7 @@ def expected_obs(m):
     for jid, sp in m.items():
         exp["byid"][jid] = [sp, sp]
         exp["contains"][jid] = True
+    exp["member"] = {model.model_id(sp): model.model_id(sp) in m for sp in UNIVERSE}
     return exp
 
 
@@ -145,6 +151,8 @@ def compare_obs(obs, exp):
             bad.append(("byid-statepoint", jid, g, e[0]))
         if obs["contains"].get(jid) is not True:
             bad.append(("contains", jid))
+    if obs["member"] != exp["member"]:
+        bad.append(("membership-by-statepoint", obs["member"], exp["member"]))
     return bad
 
 
